@@ -17,7 +17,7 @@ fn main() {
         let modes = [c12::Mode::Down, c12::Mode::Up, c12::Mode::Floor, c12::Mode::Ceiling, c12::Mode::HalfEven];
         for (i, (int, scale)) in xs.iter().enumerate() {
             for &prec in &[1u64, 3, 17] {
-                let t = c12::Trace { x: Dec { int: int.to_string(), scale: *scale }, prec, mode: modes[(i + prec as usize) % modes.len()], via: c12::Via::Ctx, env: c12::EnvSel::One(FloatEnv::Native) };
+                let t = c12::Trace { x: Dec { int: int.to_string(), scale: *scale }, prec, mode: modes[(i + prec as usize) % modes.len()], via: c12::Via::Ctx, env: c12::EnvSel::One(FloatEnv::Native), transport: 0 };
                 for f in c12::C12.execute(&t, &mut obs) {
                     failures += 1;
                     println!("violation: rule={} : {}", f.rule, f.detail);
@@ -28,7 +28,7 @@ fn main() {
     } else {
         let ds: [(&str, i64); 12] = [("1", -40), ("123456789", -20), ("-5", -300), ("17", -22), ("17", -23), ("9007199254740993", -3), ("314159265358979323846264338327950288", -100), ("-1", -308), ("2", -309), ("123", 5), ("6", -1), ("99999999999999999999", -10)];
         for (int, scale) in ds.iter() {
-            let t = c14::Trace { item: c14::Item::Dec { value: Dec { int: int.to_string(), scale: *scale } }, env: c14::EnvSel::One(FloatEnv::Native) };
+            let t = c14::Trace { item: c14::Item::Dec { value: Dec { int: int.to_string(), scale: *scale } }, env: c14::EnvSel::One(FloatEnv::Native), transport: 0 };
             for f in c14::C14.execute(&t, &mut obs) {
                 failures += 1;
                 println!("violation: rule={} : {}", f.rule, f.detail);
@@ -39,7 +39,7 @@ fn main() {
         // num-bigint's BigUint::to_f64 = mantissa * 2.0.powi(k), which Miri also perturbs although a power
         // of two is exact on every real powi; that is not bigdecimal's seam and is left out here.
         for bits in [0x3FB999999999999Au64, 1, 0x000FFFFFFFFFFFFF, 0x3FF8000000000000, 0xBFD5555555555555] {
-            let t = c14::Trace { item: c14::Item::F64 { bits }, env: c14::EnvSel::One(FloatEnv::Native) };
+            let t = c14::Trace { item: c14::Item::F64 { bits }, env: c14::EnvSel::One(FloatEnv::Native), transport: 0 };
             for f in c14::C14.execute(&t, &mut obs) {
                 failures += 1;
                 println!("violation: rule={} : {}", f.rule, f.detail);
